@@ -360,6 +360,8 @@ def _call_method(ex, base, attr, args, kwargs, st, node, spec, after=None):
         c = w.contract_for(f"{mcls}.{attr}", ex.cx)
         if c is not None:
             return apply_contract(ex, c, base, args, kwargs, st, node, spec)
+        if fnode is None:
+            raise Unsupported(f"{mcls}.{attr} is a Cython method without a contract")
         return inline_function(ex, fnode, base, args, kwargs, st, node, spec, name=f"{mcls}.{attr}", cls=mcls)
     raise Unsupported(f"method call .{attr} on {base!r} at line {getattr(node, 'lineno', '?')}")
 
@@ -543,8 +545,10 @@ def apply_contract(ex, c, selfv, args, kwargs, st, node, spec):
         result = api.mk(c.ret, f"{c.name}.result", inv)
     post.env["result"] = result
     post.env["__old_env__"] = pre
-    for gname in getattr(c, "ghost_results", ()):
-        gv = fresh(f"{c.name}::{gname}", I)
+    gres = getattr(c, "ghost_results", ())
+    for gname in gres:
+        sort = {"bool": B, "array": AII, "int": I}[gres[gname]] if isinstance(gres, dict) else I
+        gv = fresh(f"{c.name}::{gname}", sort)
         post.env[gname] = gv
         st.env[f"{c.name}::{gname}"] = gv
     st.pc += inv
